@@ -143,8 +143,14 @@ pub fn run(args: &Args) -> Report {
     }
     for (i, (text, fam)) in texts.iter().enumerate() {
         let input = hex(text.as_bytes());
+        let mut lenient_ident = false;
         let file = match load(text, false) {
-            Loaded::Ok(f, _) => f,
+            Loaded::Ok(f, log) => {
+                // non-strict reading of IF_DATA accepts an identifier where the applicable A2ML definition has a string (with
+                // a diagnostic) and writes it back as a string
+                lenient_ident = text.contains("A2ML") && log_text(&log).contains("UnexpectedTokenType");
+                f
+            }
             Loaded::Panic(p) => {
                 rep.fail("panic", input, p);
                 continue;
@@ -173,6 +179,12 @@ pub fn run(args: &Args) -> Report {
         } else {
             (a, b)
         };
+        let (a, b) = if lenient_ident {
+            let f = |v: Vec<Sig>| -> Vec<Sig> { v.into_iter().map(|t| match t { Sig::Str(x) if !x.is_empty() && x.chars().all(|c| c.is_ascii_alphanumeric() || c == '_' || c == '.' || c == '[' || c == ']') => Sig::Ident(x), o => o }).collect() };
+            (f(a), f(b))
+        } else {
+            (a, b)
+        };
         if a != b {
             // the documented reordering of position-restricted items: same multiset
             let (mut sa, mut sb) = (a.clone(), b.clone());
@@ -183,7 +195,22 @@ pub fn run(args: &Args) -> Report {
             } else {
                 let k = (0..a.len().min(b.len())).find(|&k| a[k] != b[k]).unwrap_or(a.len().min(b.len()));
                 let kind = if matches!((a.get(k), b.get(k)), (Some(Sig::Num(_) | Sig::Big(_) | Sig::BadNum(_)), Some(Sig::Num(_) | Sig::Big(_) | Sig::BadNum(_)))) { if text.contains("IF_DATA") { "ifdata-number-changed" } else { "number-changed" } } else { "tokens-differ" };
-                rep.fail(kind, input.clone(), format!("significant token #{k}: input {:?}, output {:?} ({} vs {} tokens)", a.get(k), b.get(k), a.len(), b.len()));
+                // what the two multisets do not share (helps to tell a reordering from a changed value)
+                let mut only_in: Vec<String> = vec![];
+                let (mut i, mut j) = (0, 0);
+                while (i < sa.len() || j < sb.len()) && only_in.len() < 6 {
+                    if j >= sb.len() || (i < sa.len() && sa[i] < sb[j]) {
+                        only_in.push(format!("input only: {:?}", sa[i]));
+                        i += 1;
+                    } else if i >= sa.len() || sb[j] < sa[i] {
+                        only_in.push(format!("output only: {:?}", sb[j]));
+                        j += 1;
+                    } else {
+                        i += 1;
+                        j += 1;
+                    }
+                }
+                rep.fail(kind, input.clone(), format!("significant token #{k}: input {:?}, output {:?} ({} vs {} tokens); {}", a.get(k), b.get(k), a.len(), b.len(), only_in.join("; ")));
             }
         }
         // comments between block-level elements are kept (as a multiset: sorting may move them with their element)
